@@ -257,6 +257,35 @@ def replay(rec):
     return 0
 
 
+def apalache_inductive(module_path, subst=None, timeout=900):
+    """Discharge the two obligations of an inductive invariant with Apalache: Init => IndInv (length 0) and
+    IndInv /\ Next => IndInv' (length 1).  `subst` textually instantiates definitions such as the worker count.
+    Returns dict(ok, base, step, wall_s).  Concerns the specification only (never the code under test)."""
+    d = scratch_dir("apalache-%d-%d" % (os.getpid(), int(time.time() * 1000) % 100000))
+    name = os.path.splitext(os.path.basename(module_path))[0]
+    text = open(module_path).read()
+    for a, b in (subst or {}).items():
+        assert a in text, a
+        text = text.replace(a, b)
+    with open(os.path.join(d, name + ".tla"), "w") as f:
+        f.write(text)
+    t0 = time.time()
+    out = {}
+    for label, init, length in (("base", "Init", "0"), ("step", "IndInv", "1")):
+        try:
+            r = subprocess.run(["apalache-mc", "check", "--cinit=ConstInit", "--init=" + init, "--inv=IndInv", "--length=" + length,
+                                "--out-dir=" + os.path.join(d, "out"), name + ".tla"], cwd=d, stdout=subprocess.PIPE,
+                               stderr=subprocess.STDOUT, text=True, timeout=timeout)
+            out[label] = "NoError" if ("The outcome is: NoError" in r.stdout and r.returncode == 0) else (
+                "Error" if "The outcome is: Error" in r.stdout else "failed(rc=%d)" % r.returncode)
+        except Exception as ex:  # tool missing / timeout: reported, never a verdict about the code
+            out[label] = "failed(%s)" % type(ex).__name__
+    shutil.rmtree(d, ignore_errors=True)
+    out["ok"] = out["base"] == "NoError" and out["step"] == "NoError"
+    out["wall_s"] = round(time.time() - t0, 1)
+    return out
+
+
 def abbreviate(v, keep=24):
     """Shorten long arrays inside an event so that it can be shown as a sample."""
     if isinstance(v, list):
